@@ -250,10 +250,15 @@ SGal3Base<_Derived>::inverse(OptJacobianRef J_minv_m) const {
 
   const SO3<Scalar> so3inv = asSO3().inverse();
 
+  // -R^T (p - t v), evaluated term by term exactly as compose() evaluates
+  // R^T p + t (-R^T v), so that inverse().compose(*this) is the identity
+  // exactly and not up to the rounding of |p| + |t v|
+  const LinearVelocity vinv = -so3inv.act(linearVelocity());
+
   return LieGroup(
-    -so3inv.act((translation()-t()*linearVelocity())),
+    -(so3inv.act(translation()) + t() * vinv),
      so3inv,
-    -so3inv.act(linearVelocity()),
+     vinv,
     -t()
   );
 }
